@@ -301,7 +301,7 @@ fn skip<'a>(
     context: &ParseContext,
     ni: NextItem,
 ) -> Option<(usize, &'a str)> {
-    let mut scoup_count = 0;
+    let mut scoup_count: usize = 0;
     match ni {
         NextItem::NewLine => iter.next(),
         NextItem::EndFile => None,
